@@ -13,6 +13,7 @@ else.
 from __future__ import annotations
 
 import gc
+import json
 import time
 
 import z3
@@ -75,6 +76,12 @@ class Engine:
         self.complete = False
         self.exported = []  # smt2 strings of sampled discharged queries (for the 2nd solver)
         self.export_every = 0
+        self.obligations = 0
+        self.discharged = 0
+        self.frozen = 0
+        self.pending_v = False
+        self.prefix_pc = None
+        self.delegated = []
 
     # ------------------------------------------------------------------ variables
     def _new_path(self):
@@ -82,6 +89,7 @@ class Engine:
         self.solver.set("timeout", SOLVER_TIMEOUT_MS)
         self.solver.set("random_seed", self.seed % (2**31))
         self.trace = []
+        self.dec_idx = []
         self.vars = {}
         self.pc = []
         self.obs = []
@@ -170,11 +178,14 @@ class Engine:
             if ent[0] != "b":
                 raise Inconclusive("non-deterministic replay (expected branch)")
             self.trace.append(ent)
+            self.dec_idx.append(len(self.pc))
             self._add(cond if ent[1] else z3.Not(cond))
+            self._mark_prefix()
             return ent[1]
         can_t = self._check(cond)
         can_f = self._check(z3.Not(cond))
         self.decisions += 1
+        self.dec_idx.append(len(self.pc))
         if can_t:
             self.trace.append(["b", True, can_f])
             self._add(cond)
@@ -183,6 +194,7 @@ class Engine:
             self.trace.append(["b", False, False])
             self._add(z3.Not(cond))
             return False
+        self.dec_idx.pop()
         raise Infeasible()
 
     def concretize(self, term):
@@ -203,13 +215,23 @@ class Engine:
         self.trace.append(ent)
         for t in ent[1]:
             self._add(term != t)
+        if self.prefix_pc is None and self.pending_v and i == self.frozen:
+            # this job's root is a partially explored value decision: its region is
+            # "prefix and none of the values already handed out"
+            self.prefix_pc = z3.And(*self.pc) if self.pc else z3.BoolVal(True)
+        self.dec_idx.append(len(self.pc))
         if ent[2] is None:
             if not self._check():
                 ent[3] = False
                 raise Infeasible()
             ent[2] = self.solver.model().eval(term, model_completion=True).as_long()
         self._add(term == ent[2])
+        self._mark_prefix()
         return ent[2]
+
+    def _mark_prefix(self):
+        if self.prefix_pc is None and not self.pending_v and self.frozen and len(self.trace) == self.frozen:
+            self.prefix_pc = z3.And(*self.pc) if self.pc else z3.BoolVal(True)
 
     def assume(self, cond):
         """restrict the precondition (part of the claim, listed by the harness)"""
@@ -353,12 +375,21 @@ class Engine:
         return self._check(c)
 
     # ------------------------------------------------------------------ exploration
-    def explore(self, fn, max_paths=None, deadline=None, prefix=None, frozen=0):
-        """run fn(self) on every feasible path; returns True when the tree is exhausted"""
-        self.prefix = list(prefix or [])
+    def explore(self, fn, max_paths=None, deadline=None, prefix=None, frozen=0, pending_v=False):
+        """run fn(self) on every feasible path below `prefix` (decisions [0:frozen] are fixed;
+        with pending_v the decision at index `frozen` is a value decision some of whose
+        values were already handed to other jobs).
+
+        Returns True when the subtree was exhausted *or* its unexplored remainder was
+        handed over in self.delegated (list of job dicts) because max_paths was reached;
+        False when the deadline hit."""
+        self.prefix = [list(e) for e in (prefix or [])]
+        self.frozen = frozen
+        self.pending_v = pending_v
+        self.prefix_pc = None
+        self.delegated = []
         self.excluded = []
-        self.obligations = getattr(self, "obligations", 0)
-        self.discharged = getattr(self, "discharged", 0)
+        done_here = 0
         gc_was = gc.isenabled()
         gc.disable()
         try:
@@ -385,17 +416,13 @@ class Engine:
                     Engine.cur = None
                 if ended != "infeasible":
                     self.paths += 1
+                    done_here += 1
                     for lab in self.path_reached:
                         self.reached[lab] = self.reached.get(lab, 0) + 1
                     if self.keep_pcs:
                         self.pcs.append(z3.And(*self.pc) if self.pc else z3.BoolVal(True))
                     if len(self.samples) < self.want_samples and ended == "ok":
                         self._sample()
-                else:
-                    if self.keep_pcs and self.pc:
-                        # an infeasible leaf covers nothing, but a path cut by assume() is
-                        # already represented in self.excluded
-                        pass
                 gc.collect()
                 tr = self.trace
                 while len(tr) > frozen:
@@ -411,13 +438,40 @@ class Engine:
                     self.complete = True
                     return True
                 self.prefix = list(tr)
-                if max_paths is not None and self.paths >= max_paths:
-                    return False
+                if max_paths is not None and done_here >= max_paths:
+                    self._delegate(tr, frozen)
+                    self.complete = True
+                    return True
                 if deadline is not None and time.time() > deadline:
                     return False
         finally:
             if gc_was:
                 gc.enable()
+
+    def _delegate(self, tr, frozen):
+        """split the unexplored remainder of this subtree into independent jobs.
+        tr is the next DFS prefix: tr[:-1] equals the last executed path's decisions and
+        tr[-1] is its deepest open alternative (already flipped)."""
+        pc, idx = self.pc, self.dec_idx
+        j = len(tr) - 1
+        for i in range(frozen, j + 1):
+            ent = tr[i]
+            if i < j:
+                if ent[0] == "b":
+                    if not ent[2]:
+                        continue
+                    alt = ["b", not ent[1], False]
+                else:
+                    if not ent[3]:
+                        continue
+                    alt = ["v", ent[1] + [ent[2]], None, True]
+            else:
+                alt = ent
+            region = z3.And(*(pc[: idx[i]] + [z3.Not(pc[idx[i]])]))
+            job = {"prefix": json.loads(json.dumps(tr[:i] + [alt])), "frozen": i + 1 if alt[0] == "b" else i, "pending_v": alt[0] == "v"}
+            self.delegated.append(job)
+            if self.keep_pcs:
+                self.pcs.append(region)
 
     def _sample(self):
         # a model of the finished path: inputs + observations
@@ -433,6 +487,8 @@ class Engine:
         s.set("timeout", timeout_ms)
         for r in self.ranges.values():
             s.add(r)
+        if self.prefix_pc is not None:
+            s.add(self.prefix_pc)
         s.add(z3.Not(z3.Or(*(self.pcs + self.excluded))) if (self.pcs or self.excluded) else z3.BoolVal(True))
         t0 = time.perf_counter()
         r = s.check()
